@@ -4,6 +4,7 @@
 package query
 
 import (
+	"slices"
 	"strings"
 
 	"github.com/apmckinlay/gsuneido/compile/ast"
@@ -105,6 +106,7 @@ func (a *updateAction) execute(th *Thread, ut *db19.UpdateTran) int {
 		panic("update: query not updateable")
 	}
 	hdr := q.Header()
+	stored := ut.GetSchema(table).Columns
 	tran := MakeSuTran(ut)
 	ctx := ast.RowContext{Th: th, Tran: tran, Hdr: hdr}
 	n := 0
@@ -122,11 +124,31 @@ func (a *updateAction) execute(th *Thread, ut *db19.UpdateTran) int {
 			r.Put(th, SuStr(col), a.exprs[i].Eval(&ctx))
 		}
 		newrec := r.ToRecord(th, hdr)
+		newrec = keepProjected(newrec, hdr.Fields[0], stored, row[0].Record)
 		off := ut.Update(th, table, row[0].Off, newrec)
 		updated[off] = struct{}{}
 		n++
 	}
 	return n
+}
+
+// keepProjected restores the stored fields that the query projected away.
+// A project that keeps a key is updateable, but its header has "-"
+// in place of the fields that are not projected,
+// and ToRecord writes "" for those.
+func keepProjected(newrec Record, flds, stored []string, oldrec Record) Record {
+	if slices.Equal(flds, stored) {
+		return newrec
+	}
+	rb := RecordBuilder{}
+	for i, fld := range flds {
+		if fld == "-" && i < len(stored) && stored[i] != "-" {
+			rb.AddRaw(oldrec.GetRaw(i))
+		} else {
+			rb.AddRaw(newrec.GetRaw(i))
+		}
+	}
+	return rb.Trim().Build()
 }
 
 //-------------------------------------------------------------------
